@@ -189,6 +189,27 @@ fn mintrace(usage: &str, shell: Shell) -> Value {
     json!({"verdict":"ok","raw":rawv,"min":minv,"events":events,"sc":sc})
 }
 
+/// verdict of validation + the events get_nonterminals_resolution_order reported (hook events ro_*)
+fn order(usage: &str, shell: Shell) -> Value {
+    let g = match Grammar::parse(usage) {
+        Ok(g) => g,
+        Err(e) => return json!({"verdict":"error","phase":"parse","err":err_json(&e),"events":[]}),
+    };
+    complgen::verif::drain();
+    complgen::verif::enable(true);
+    let r = ValidGrammar::from_grammar(g, shell);
+    complgen::verif::enable(false);
+    let events: Vec<Value> = complgen::verif::drain()
+        .iter()
+        .filter_map(|e| serde_json::from_str::<Value>(e).ok())
+        .filter(|e| e["ev"].as_str().unwrap_or("").starts_with("ro_"))
+        .collect();
+    match r {
+        Ok(_) => json!({"verdict":"ok","events":events}),
+        Err(e) => json!({"verdict":"error","phase":"validate","err":err_json(&e),"events":events}),
+    }
+}
+
 fn tree(a: &[Expr], id: ExprId) -> Value {
     match &a[id] {
         Expr::Terminal {
@@ -534,6 +555,16 @@ fn main() {
                 }
             }
             "cli" => cli_case(&v, &tmpdir),
+            "order" => {
+                let u = usage.clone();
+                match std::panic::catch_unwind(move || order(&u, shell)) {
+                    Ok(o) => o,
+                    Err(p) => {
+                        let msg = p.downcast_ref::<String>().cloned().or_else(|| p.downcast_ref::<&str>().map(|s| s.to_string())).unwrap_or_default();
+                        json!({"verdict":"panic","msg":msg,"events":[]})
+                    }
+                }
+            }
             "mintrace" => {
                 let u = usage.clone();
                 match std::panic::catch_unwind(move || mintrace(&u, shell)) {
